@@ -151,7 +151,9 @@ def body_short(case, note):
 
 # ------------------------------------------------------------------ histories
 
-NAME_POOL = ["x", "x_", "class_", "class", "style", "id", "data_a", "data-a", "title", "A_b", "for_", "y"]
+NAME_POOL = ["x", "x_", "class_", "class", "style", "id", "data_a", "data-a", "title", "A_b", "for_", "y",
+             # names to which HTML / browsers attach a meaning of their own (URLs, handlers, form values)
+             "href", "src", "action", "value", "onclick", "srcset", "poster", "xlink:href", "content", "alt", "name", "type"]
 
 
 def raw_names():
@@ -167,7 +169,13 @@ def values():
     plain = gen.any_text()
     htmlv = st.one_of(st.sampled_from(BENIGN_HTML), st.sampled_from(BENIGN_HTML), gen.any_text()).map(lambda s: {"html": s})
     strsub = gen.any_text().map(lambda t: {"strsub": t})  # StrEnum members, typed id strings: plain strings
-    return st.one_of(plain, plain, plain, htmlv, htmlv, gen.numbers(), st.sampled_from([True, False, None, 0, ""]), strsub)
+    # values that start like something harmless or well known (data: / javascript: URLs, url(), template markers)
+    prefixed = st.builds(
+        lambda pre, t: pre + t,
+        st.sampled_from(["data:image/png;base64,", "data:text/html;charset=utf-8;base64,AAAA", "data:,", "javascript:", "https://x.example/?q=", "#", "mailto:", "url(", "var(--x)", "{{", "rgb(", "0", "true", "on", "&amp;", "&#10;"]),
+        gen.any_text(),
+    )
+    return st.one_of(plain, plain, plain, htmlv, htmlv, gen.numbers(), st.sampled_from([True, False, None, 0, ""]), strsub, prefixed)
 
 
 def str_values():
